@@ -4,7 +4,7 @@ PROP = dict(
     level_text='Generated search over (role x version set x handshake kind x suite x injection point x attacker item) with a monitor on every delivery and every encode call; finds gate omissions that depend on state/role/version, proves nothing beyond the explored cases.',
     level_note='Trusted: the harness follows the documented caller contract of matrixsslApi.c; the legit peer is MatrixSSL itself (keyed-peer premature data is not generated yet); entropy/clock are pinned by ld --wrap.',
     technique='property-based testing: history monitor (invariant over API-call history) with generated attacker injections',
-    rule='case = (victim role, version set incl. library default and DTLS, kind full/client-auth/resumed, suite, injection point k in records/datagrams, item in {plaintext type-23 record, random ciphertext, record from a parallel session, reflected own record, premature encode}, payload length/header version/epoch); '
+    rule='case = (victim role, version set incl. library default and DTLS, kind full/client-auth/resumed, suite, injection point k in records/datagrams, item in {plaintext type-23 record, random ciphertext, record from a parallel session, reflected own record, premature encode}, payload length/header version/epoch); every DTLS case ends with a burst that the attacker reorders and replays (each message delivered at most once); c01_keyless13 (enumerated): TLS 1.3 PSK-offering client vs a server without any key of the client x (suite, early secret, pre_shared_key answer, selected identity, client suite list, PSK hash); c01_hrr_forged_ch2: TLS 1.3 server with early data, genuine ClientHello1 forwarded, HelloRetryRequest answered by the attacker\'s own ClientHello2 (suite, early_data again?, genuine early records forwarded?) followed by 1-3 records under an all-zero / random key; '
          'non-trivial = injected mid-handshake or the item is a well-formed record; distinct by (role, version set, kind, k, item, suite class)',
     assumptions=['attacker has no session keys (keyed premature data needs the scripted peer, not built yet)'],
     targets=[dict(name='c01_appdata_gate', src=['props/C01/appdata_gate.cc', 'harness/wraps.c'], wraps=WRAPS, env={'VERIF_DIR': '/verif'},
